@@ -375,4 +375,5 @@ def shrink(ctx, failure):
             t['T'] = None
     if start and fails(0, tickers):
         start = 0
-    return dict(start=start, tickers=tickers, failing=0)
+    why = [m for sp, l in zip(tickers, run_tickers(start, tickers)) for m in monitor(sp, start, l)]
+    return dict(start=start, tickers=tickers, failing=0, why_after_shrinking=why[:3])
